@@ -2,5 +2,6 @@ CONSTANTS Emit = FALSE
  Kinds = {}
  TOL = 4
  HB = 256
+ HB2 = 2048
 SPECIFICATION TSpec
 CHECK_DEADLOCK FALSE
